@@ -89,7 +89,7 @@ deriving Repr
 /-- Python exception classes that can come out of evaluating an expression -/
 inductive PyExc
   | typeError | attributeError | valueError | keyError | indexError | zeroDivision | stopIteration
-  | overflowError | reError
+  | overflowError | reError | runtimeError
 deriving DecidableEq, Repr
 
 inductive Err
@@ -102,6 +102,7 @@ def PyExc.name : PyExc → String
   | .typeError => "TypeError" | .attributeError => "AttributeError" | .valueError => "ValueError"
   | .keyError => "KeyError" | .indexError => "IndexError" | .zeroDivision => "ZeroDivisionError"
   | .stopIteration => "StopIteration" | .overflowError => "OverflowError" | .reError => "error"
+  | .runtimeError => "RuntimeError"
 
 def F (bits : UInt64) : Float := Float.ofBits bits
 def B (f : Float) : UInt64 := f.toBits
